@@ -1977,6 +1977,22 @@ class Interp:
                 return None
             if attr == 'copy':
                 return o.copy()
+            if attr == 'isdisjoint' and len(args) == 1:
+                a = args[0]
+                if o.expr is None or (isinstance(a, (list, tuple)) and not a):
+                    return True
+                if isinstance(a, SymSet):
+                    if a.expr is None:
+                        return True
+                    return z3.SetIntersect(o.expr, a.expr) == z3.EmptySet(o.expr.sort().domain())
+                if isinstance(a, (list, tuple)):
+                    return z3.And(*[z3.Not(to_z3(o.contains(x))) for x in a])
+                if isinstance(a, SymSeq) and a.arity is None and a.keys is None:
+                    elems = _set_elements(o.expr)
+                    if elems is not None:
+                        # a set of known elements against a list of unknown length: none of the elements occurs in the list
+                        return z3.And(*[z3.Not(z3.Contains(a.cols[0], z3.Unit(c))) for c in elems]) if elems else True
+                raise Unsupported('isdisjoint of a symbolic set and %r' % (a,))
             if attr == 'update' and len(args) == 1:
                 a = args[0]
                 if isinstance(a, SymSet):
@@ -2084,6 +2100,21 @@ class Interp:
 
 
 _MISSING = object()
+
+
+def _set_elements(expr):
+    """elements of a z3 set term built by SetAdd on the empty set (a set display of constants / symbols); None if it has another shape"""
+    out = []
+    e = expr
+    for _ in range(64):
+        if z3.is_store(e) and z3.is_true(e.arg(2)):
+            out.append(e.arg(1))
+            e = e.arg(0)
+        elif z3.is_const_array(e) and z3.is_false(e.arg(0)):
+            return out
+        else:
+            return None
+    return None
 ANY_CALL_ERRORS = ['TypeError', 'AttributeError', 'KeyError', 'IndexError', 'ValueError', 'ZeroDivisionError', 'StopIteration',
                    'RuntimeError', 're.error', 'OverflowError', 'ExpressionError', 'Exception']
 
